@@ -2,6 +2,7 @@
    Proofs/PreVoteProofs.v), over Model/Raft.v, for every state and every message. *)
 From Coq Require Import List NArith.
 From RaftV Require Import Base Types Quorum Progress Tracker Storage Log Raft RawNode RaftMono PreVoteProofs.
+From RaftV Require Import CheckQuorumProofs CheckQuorumEx.
 Import ListNotations.
 Open Scope N_scope.
 
@@ -51,3 +52,66 @@ Theorem C17_in_lease_ignored : forall st r m r' e,
   step st r m = Ok (r', e) -> r' = r /\ e = ENone.
 Proof. exact in_lease_vote_ignored. Qed.
 Print Assumptions C17_in_lease_ignored.
+
+
+(* ---- CheckQuorum: the step-down of a leader (Proofs/CheckQuorumProofs.v) ---- *)
+
+(* whatever message a leader steps (any type, term and content, except a leadership-transfer
+   request and the local check itself): if it is still leader of its term afterwards, its term,
+   vote, lead, election timer and configuration are unchanged and the only peer that can be newly
+   marked recently active is the sender of a MsgAppResp or MsgHeartbeatResp *)
+Theorem C17_leader_hears_only_responses : forall st r m r' e,
+  r_state r = StateLeader -> r_lead r <> NoneId -> admissible r m ->
+  step st r m = Ok (r', e) ->
+  r_state r' = StateLeader -> r_term r' = r_term r -> lk (heard m) r r'.
+Proof. exact step_leader_frame. Qed.
+Print Assumptions C17_leader_hears_only_responses.
+
+(* one tick of a leader with CheckQuorum that stays leader of its term: the election timer
+   advances, or the check fires, finds a quorum marked active, restarts the timer and clears every
+   mark but the leader's own *)
+Theorem C17_check_quorum_tick : forall st r r',
+  r_state r = StateLeader -> r_check_quorum r = true -> r_lead r <> NoneId ->
+  tick st r = Ok r' -> r_state r' = StateLeader -> r_term r' = r_term r ->
+  lstate0 r' = lstate0 r /\
+  if r_election_timeout r <=? r_election_elapsed r + 1
+  then quorum_active (r_trk r) = true /\ r_election_elapsed r' = 0 /\ act_in (fun i => i = r_id r) r'
+  else r_election_elapsed r' = r_election_elapsed r + 1 /\ forall S, act_in S r -> act_in S r'.
+Proof. exact tick_leader. Qed.
+Print Assumptions C17_check_quorum_tick.
+
+(* over every sequence of ticks and messages: a leader that hears only from peers that together
+   with itself are not a quorum (by the decision function of C12, for every voter set of a joint
+   configuration) is no longer leader of its term after at most two election timeouts of ticks *)
+Theorem C17_check_quorum_steps_down : forall st r H ops rf,
+  r_state r = StateLeader -> r_check_quorum r = true -> r_lead r <> NoneId ->
+  1 <= r_election_timeout r ->
+  no_quorum r H -> ops_ok r H ops ->
+  lrun st r ops = Ok rf -> 2 * r_election_timeout r <= ticks ops ->
+  left_term st r ops.
+Proof. exact check_quorum_steps_down. Qed.
+Print Assumptions C17_check_quorum_steps_down.
+
+(* the hypotheses are satisfiable: an elected leader of three voters that only ticks *)
+Theorem C17_check_quorum_nonvacuous :
+  exists st r ops rf,
+    r_state r = StateLeader /\ r_check_quorum r = true /\ r_lead r <> NoneId /\
+    1 <= r_election_timeout r /\ no_quorum r [] /\ ops_ok r [] ops /\
+    lrun st r ops = Ok rf /\ 2 * r_election_timeout r <= ticks ops /\
+    r_state rf = StateFollower /\ left_term st r ops.
+Proof. exact check_quorum_nonvacuous. Qed.
+Print Assumptions C17_check_quorum_nonvacuous.
+
+
+(* the exclusion of leadership-transfer requests is necessary: with them the leader of the example
+   above still leads its term after three election timeouts of ticks without hearing from anybody
+   (finding F13; replayed on the implementation by corpus/f13_transfer_postpones_checkquorum.sched) *)
+Theorem C17_unrestricted_refuted :
+  exists st r ops rf,
+    r_state r = StateLeader /\ r_check_quorum r = true /\ r_lead r <> NoneId /\
+    1 <= r_election_timeout r /\ no_quorum r [] /\
+    Forall (fun o => match o with LTick => True | LStep m => marks m = false end) ops /\
+    lrun st r ops = Ok rf /\ 2 * r_election_timeout r <= ticks ops /\
+    ~ left_term st r ops.
+Proof. exact check_quorum_unrestricted_refuted. Qed.
+Print Assumptions C17_unrestricted_refuted.
